@@ -8,12 +8,12 @@ namespace Netpoll.Conn.Read
 
 /-- the reader is inside a timed call after the timer has been armed -/
 def timedArmed : RPc → Bool
-  | .chkLen _ true | .chkClosing _ true | .wait _ true | .ret _ _ _ => true
+  | .chkLen _ true | .chkClosing _ true | .reChk _ true _ | .wait _ true | .ret _ _ _ => true
   | _ => false
 
 /-- the `n` of the call in progress, while `waitReadSize` is published -/
 def published : RPc → Option Nat
-  | .arm n | .chkLen n _ | .chkClosing n _ | .wait n _ | .dblChk n | .ret n _ _ | .unstore n _ _ => some n
+  | .arm n | .chkLen n _ | .chkClosing n _ | .reChk n _ _ | .wait n _ | .dblChk n | .ret n _ _ | .unstore n _ _ => some n
   | _ => none
 
 /-- class of a completed call `(n, result, Len() at the decision, peerClosed, userClosed at return)` -/
@@ -48,6 +48,11 @@ structure Good (s : S) : Prop where
   -- enough data means a delivery is still in progress (it will trigger) or the slot holds a token
   lw1 : ∀ n t, (s.r = .chkClosing n t ∨ s.r = .wait n t) → s.slot = none → s.inLen ≥ n → s.p ≠ .idle
   lw2 : ∀ n t, s.r = .wait n t → s.slot = none → s.closing ≠ 0 → s.c ≠ .none
+  -- the re-check after closing ≠ 0 was seen / a closer's error was received knows who closed
+  rk : ∀ n t pr, s.r = .reChk n t pr → (pr = true → s.peerClosed = true) ∧ (pr = false → s.userClosed = true)
+  -- a close error is decided at the re-check only: fewer than n bytes were buffered there (fix D20)
+  ef2 : ∀ n res seen, (s.r = .ret n res seen ∨ s.r = .unstore n res seen) → (res = .errEOF ∨ res = .errClosed) → seen < n
+  ef3 : ∀ x ∈ s.results, (x.2.1 = .errEOF ∨ x.2.1 = .errClosed) → x.2.2.1 < x.1
   -- every completed call has the right class
   res : ∀ x ∈ s.results, ResOK x
   -- pending results
